@@ -415,12 +415,18 @@ def thenSmartContract (env : Env) (msgType : MsgType) (signers : List Addr)
     | some e => .error e
     | none => .ok ()
 
-/-- `ValidateWriteScope` (scope.go:424) for scopes without value owner; `specRoles` =
-`scopeSpec.PartiesInvolved` where `scopeSpec` is looked up with `proposed.SpecificationId`
-(scope.go:472) — the specification the PROPOSED scope names, also for the signer roles of an
-existing scope (scope.go:503). -/
+/-- `ValidateWriteScope` (scope.go:424) for scopes without value owner.
+* `specRoles` = `scopeSpec.PartiesInvolved`, where `scopeSpec` is looked up with
+  `proposed.SpecificationId` (scope.go:472): the roles the PROPOSED owners must contain.
+* `existingSpecRoles` = `some existingSpec.PartiesInvolved` when the proposed scope names a
+  specification id different from the stored scope's and the stored scope's specification is
+  found (scope.go:506-510, commit 89425229f); `none` when the id is unchanged or that
+  specification no longer exists.  The signer roles of an existing rollup scope are
+  `reqRoles` = the stored scope's specification's roles in the first case, `specRoles`
+  otherwise. -/
 def validateWriteScope (env : Env) (existing : Option Scope) (proposed : Scope)
-    (specRoles : List Role) (signers : List Addr) : Except Err Unit :=
+    (specRoles : List Role) (existingSpecRoles : Option (List Role)) (signers : List Addr) :
+    Except Err Unit :=
   let msgType := "WriteScope"
   orElse (validateRolesPresent proposed.owners specRoles) <|
   orElse (validateProvenanceRole env (buildPartyDetails [] proposed.owners)) <|
@@ -433,8 +439,16 @@ def validateWriteScope (env : Env) (existing : Option Scope) (proposed : Scope)
           (validateAllRequiredSigned env msgType (getPartyAddresses ex.owners) signers)
       else thenSmartContract env msgType signers (.ok [])
     else
+      let reqRoles := existingSpecRoles.getD specRoles
       thenSmartContract env msgType signers
-        (validateAllRequiredPartiesSigned env msgType ex.owners ex.owners specRoles signers)
+        (validateAllRequiredPartiesSigned env msgType ex.owners ex.owners reqRoles signers)
+
+/-- `ValidateWriteScope` BEFORE commit 89425229f (historical, kept for the defect witness
+`writeScope_spec_swap_accepted_before_fix`): the stored scope's specification was never
+consulted; every role requirement came from the specification the proposed scope names. -/
+def validateWriteScopePreFix (env : Env) (existing : Option Scope) (proposed : Scope)
+    (specRoles : List Role) (signers : List Addr) : Except Err Unit :=
+  validateWriteScope env existing proposed specRoles none signers
 
 /-- `ValidateDeleteScope` (scope.go:525) for scopes without value owner; `specRoles = none`
 when the scope specification no longer exists. -/
